@@ -267,6 +267,7 @@ class Faults:
 
     def __init__(self):
         self.fail = set()  # destination paths whose upload fails
+        self.exc_kind = None  # optional callable(path) -> exception instance for a failing upload
         self.abort_at = None  # index of the upload event at which the process dies (Crash)
         self.events = []  # (to_path, outcome)
         self.after_event = None  # callback(to_path, outcome) after each upload event
@@ -294,7 +295,7 @@ class Faults:
                     raise Crash(("upload", tp))
                 if tp in f.fail:
                     f.events.append((tp, "fail"))
-                    exc = OSError(errno.EIO, "injected upload failure", tp)
+                    exc = f.exc_kind(tp) if f.exc_kind else OSError(errno.EIO, "injected upload failure", tp)
                     if on_error is None:
                         raise exc
                     on_error(fp, tp, exc)
